@@ -10,7 +10,7 @@ from ..harness import World, consume_with_timeout, execute, params_snapshot, pla
 
 LEVEL = "exploration"
 PLAN = {
-    "quick": {"mem": 700, "redis": 450, "rabbit": 450},
+    "quick": {"mem": 1400, "redis": 800, "rabbit": 800},
     "thorough": {"mem": 30000, "redis": 25000, "rabbit": 25000},
 }
 BUDGET = {"quick": 50, "thorough": 900}
